@@ -1,0 +1,86 @@
+//! Verification hooks, compiled only with `--cfg sonic_rs_verif`.
+//!
+//! * re-exports of crate-private vector primitives so that they can be compared with their
+//!   scalar definitions lane by lane;
+//! * `sync::AtomicPtr`, a drop-in for `std::sync::atomic::AtomicPtr` used by the lazily
+//!   initialised caches of `LazyValue` / `OwnedLazyValue`: it reports every atomic operation to
+//!   an optional process-global hook (a scheduler yield point) and lets the hook make a *weak*
+//!   compare-exchange fail spuriously, which the memory model allows at any time.
+
+pub use crate::util::arch::{get_nonspace_bits, prefix_xor};
+
+pub mod sync {
+    use std::sync::atomic::{AtomicUsize, Ordering};
+
+    /// The atomic operation about to be performed.
+    #[derive(Clone, Copy, Debug, PartialEq, Eq)]
+    pub enum Op {
+        Load,
+        CompareExchange,
+        CompareExchangeWeak,
+    }
+
+    /// Called before every operation; for `CompareExchangeWeak` a `true` result makes the
+    /// operation fail spuriously.
+    pub type Hook = fn(Op) -> bool;
+
+    static HOOK: AtomicUsize = AtomicUsize::new(0);
+
+    pub fn set_hook(hook: Option<Hook>) {
+        HOOK.store(hook.map(|h| h as usize).unwrap_or(0), Ordering::SeqCst);
+    }
+
+    #[inline]
+    fn call_hook(op: Op) -> bool {
+        let h = HOOK.load(Ordering::SeqCst);
+        if h == 0 {
+            false
+        } else {
+            let f: Hook = unsafe { std::mem::transmute::<usize, Hook>(h) };
+            f(op)
+        }
+    }
+
+    #[derive(Debug)]
+    pub struct AtomicPtr<T>(std::sync::atomic::AtomicPtr<T>);
+
+    impl<T> AtomicPtr<T> {
+        pub fn new(p: *mut T) -> Self {
+            Self(std::sync::atomic::AtomicPtr::new(p))
+        }
+
+        pub fn get_mut(&mut self) -> &mut *mut T {
+            self.0.get_mut()
+        }
+
+        pub fn load(&self, order: Ordering) -> *mut T {
+            call_hook(Op::Load);
+            self.0.load(order)
+        }
+
+        pub fn compare_exchange(
+            &self,
+            current: *mut T,
+            new: *mut T,
+            success: Ordering,
+            failure: Ordering,
+        ) -> Result<*mut T, *mut T> {
+            call_hook(Op::CompareExchange);
+            self.0.compare_exchange(current, new, success, failure)
+        }
+
+        pub fn compare_exchange_weak(
+            &self,
+            current: *mut T,
+            new: *mut T,
+            success: Ordering,
+            failure: Ordering,
+        ) -> Result<*mut T, *mut T> {
+            if call_hook(Op::CompareExchangeWeak) {
+                // a spurious failure: nothing is stored, the current value is reported
+                return Err(self.0.load(failure));
+            }
+            self.0.compare_exchange_weak(current, new, success, failure)
+        }
+    }
+}
